@@ -942,7 +942,7 @@ def d2_empty_result(ck):
         return
     for c in calls:
         if hits:
-            ck.bad(rule, mod, c, 'transitions', u(c)[:120],
+            ck.bad(rule, mod, c, 'transitions', 'RaggedArray(<columns of where(mask)>, lengths=<per-row counts>)',
                    'when no trajectory has a transition the data handed to RaggedArray are empty while lengths are given, and '
                    'RaggedArray.__init__ reads self._data on that path without ever storing it (%s): AttributeError instead of '
                    'a ragged array of empty rows' % hits[0]['site'])
